@@ -48,6 +48,10 @@ Next ==
      THEN /\ dead' = FALSE /\ phase' = "top" /\ pc' = e.pc /\ target' = e.target /\ budget' = e.budget /\ all0' = e.all
           /\ consumed' = 0 /\ logging' = e.logging /\ prog' = e.prog /\ lastop' = -1
           /\ UNCHANGED <<bad, why>>
+     ELSE IF e.k = "pair"        \* C14: the traced and the untraced run of the same scenario end identically
+     THEN /\ bad' = IF e.with = e.without THEN bad ELSE bad \cup {l}
+          /\ why' = IF e.with = e.without THEN why ELSE [i \in DOMAIN why \cup {l} |-> IF i = l THEN "tracing perturbs execution" ELSE why[i]]
+          /\ UNCHANGED <<dead, phase, pc, target, budget, all0, consumed, logging, prog, lastop>>
      ELSE IF dead THEN UNCHANGED <<bad, dead, phase, pc, target, budget, all0, consumed, logging, prog, lastop, why>>
      ELSE IF e.k = "lost" THEN /\ dead' = TRUE
                                /\ UNCHANGED <<bad, phase, pc, target, budget, all0, consumed, logging, prog, lastop, why>>
